@@ -146,10 +146,10 @@ def _prefix(drv, gen, rng, kind, flavour, hexfile):
 
 def run_history(rng, version, flavour, steps, *, profile=None, calls=True, persist=None, raising_cb=False,
                 pump_bias=0.7, hexfile=None, clock=True, mqtt=False, harsh=False, prefix=None,
-                tick_p=0.06, restart_p=0.03, snap_dir=None, snap_p=0.0):
+                tick_p=0.06, restart_p=0.03, snap_dir=None, snap_p=0.0, no_callback=False):
     """One random history on a fresh gateway; returns the trace dict."""
     interner = Interner()
-    drv = Driver(version, flavour, interner, persistence_file=persist, raising_cb=raising_cb, mqtt=mqtt)
+    drv = Driver(version, flavour, interner, persistence_file=persist, raising_cb=raising_cb, mqtt=mqtt, no_callback=no_callback)
     gen = Gen(rng, version, profile)
     gen.ota_nodes = []
     if persist:
@@ -190,7 +190,10 @@ def run_history(rng, version, flavour, steps, *, profile=None, calls=True, persi
         elif persist and x < 0.18 + tick_p:
             drv.tick()
         elif persist and x < 0.18 + tick_p + restart_p:
-            drv.stop_restart()
+            inflight = None
+            if not mqtt and rng.random() < 0.4:
+                inflight = rng.choice(["255;255;3;0;3;\n", f"{gen.n()};255;0;0;17;2.0\n", gen.line() + "\n"])
+            drv.stop_restart(inflight)
             drv.start_persistence()
         elif gen.ota_nodes and x < 0.45:
             n = rng.choice(gen.ota_nodes)
